@@ -58,7 +58,7 @@ CHECKS = {
             "DESIGN §4 C10"),
     "C11": ("fault_enumeration",
             "runtime monitor: state machine over directory snapshots for every initial key-path state x run sequences of length 1-3 (real CLI processes), decryptability through the real decrypt command, strace syscall order 'key file closed before first write to the output file', EACCES injected with strace, GenerateKey distinctness",
-            "Exhaustive over the 23 listed states x 4 sequences; GenerateKey on 3 000 (quick) calls in two processes.",
+            "Exhaustive over the 36 listed states (incl. the output file being an alias of the key path, a write-only key file) x 4 sequences, runs that fail part-way, and 6 Atlas jobs with --encrypt through the fake endpoint; GenerateKey on 3 000 (quick) calls in two processes.",
             "'valid+LF/CRLF' and URL-safe text may be accepted or refused (both consistent with the statement); unreadable needs strace (root sandbox).",
             "DESIGN §4 C11"),
     "C13": ("exploration",
@@ -73,8 +73,8 @@ CHECKS = {
             "DESIGN §4 C12"),
     "C14": ("exploration",
             "runtime monitor: per-leaf verdict oracle — should_redact computed in the driver from the object keys on the input path with Go's regexp on the same pattern text, compared with 'changed / unchanged' of the aligned output leaf",
-            "Held on the wrapper x name x class catalogue (29 wrappers x matching/non-matching names x 7 classes x 6 regexps) plus random grammar lines.",
-            "Search stages, literals next to a matching '$field' reference, and numbers/booleans without -n/-b are not judged.",
+            "Held on the wrapper x name x class catalogue (31 wrappers x matching/non-matching names x 7 classes x 27 regexp families, incl. patterns that match protocol keys, operators and stage arguments) plus random grammar lines; '$'-keys never count as field names.",
+            "Search stages, literals next to a matching '$field' reference, leaves under a matching stage-argument key, and numbers/booleans without -n/-b are not judged.",
             "DESIGN §4 C14"),
     "C15": ("exploration",
             "runtime monitor: per-log offline checker — positional renaming check of planted field names (keys, '$field' references, plan-summary tokens by an independent tokeniser) with a name<->pseudonym bimap, whole-line leak search, value and byte differential against the flag-off run",
